@@ -322,6 +322,22 @@ CLAIMED = {
         technique="TLA+ scheme table + TLC trace validation of the stored steps of real solver runs",
         ref="5/C17",
     ),
+    "C28": dict(
+        level="model_checking",
+        text="UrdfFK.tla: link trees over the octahedral lattice (joint types fixed, revolute, continuous, prismatic, planar, floating; origins = "
+             "integer translation + rpy in quarter turns; six signed axes; coordinates = quarter turns / integer displacements; integer rates; "
+             "fixed and floating roots; inertial frames with offset and rotation). TLC builds every link frame by URDF semantics one joint per step "
+             "in integer arithmetic (an oracle written from the URDF definition, not from the importer) and checks the oracle's own invariants. "
+             "For every final state the harness writes the URDF, calls system_from_urdf with the requested configuration and velocities (entries "
+             "for zero coordinates omitted; floating joints as 6- and 7-vectors) and compares every imported body's r_OP, A_IB, v_P, B_Omega with "
+             "the spec, System.g / g_dot at the initial state with zero and Revolute.angle / angle_dot with the request.",
+        note="Single joints: 3 roots x 6 types x 6 axes x 8 origin rotations x 3 coordinates x 2 rates; trees: 3 roots x 7^3 joint menus x 6 parent "
+             "assignments; a deterministic stride thins both families (quick: 365 + 101 robots, thorough: ~1500 + ~700). Octahedral rotations only "
+             "(exact integer kinematics). Planar joints with axis z and (x, y) in the joint frame; floating joints without relative angular "
+             "velocity; a non-floating root at rest.",
+        technique="TLA+ exact-arithmetic forward-kinematics spec + TLC enumeration, replay into the importer",
+        ref="5/C28",
+    ),
 }
 
 NOT_APPLICABLE = {
